@@ -608,4 +608,103 @@ theorem stepATrio {C : Cfg} {s : St} (w : WF C) (w2 : WF2 C) (t : Trio C s) (dt 
   refine fold _ _ (fun n hn => List.mem_range.mp (List.mem_filter.mp hn).1) (fun x n hn hx => hx.distLoopA' w w2 n hn dt _ (hchk n hn)) _ ?_
   exact key _ s t
 
+/-! ### the failure flags (`failed`, `netFailed`) are not touched by the loops that cope with devices in trouble -/
+
+theorem nf_flagStepD (C : Cfg) (n : Nat) (cd : CommD) (acc : St × List Bool) (k : Nat) :
+    (flagStepD C n cd acc k).1.netFailed = acc.1.netFailed ∧ (flagStepD C n cd acc k).1.failed = acc.1.failed := by
+  unfold flagStepD
+  simp only
+  by_cases hf : reportedFail C acc.1 cd k = true
+  · rw [if_pos hf]; exact ⟨remFold_nf _ _ _, (remFold_fields _ _ _).2.1⟩
+  · rw [if_neg hf]; exact ⟨rfl, rfl⟩
+
+theorem nf_recoStepD (C : Cfg) (n : Nat) (cd : CommD) (s : St) (k : Nat) :
+    (recoStepD C n cd s k).netFailed = s.netFailed ∧ (recoStepD C n cd s k).failed = s.failed := by
+  unfold recoStepD
+  simp only
+  split_ifs
+  · exact ⟨rfl, rfl⟩
+  · exact nf_secConnectManually C _ k
+
+theorem nf_foldl_pair {α : Type} (f : St × List Bool → α → St × List Bool)
+    (hf : ∀ acc a, (f acc a).1.netFailed = acc.1.netFailed ∧ (f acc a).1.failed = acc.1.failed) (l : List α) (acc : St × List Bool) :
+    (l.foldl f acc).1.netFailed = acc.1.netFailed ∧ (l.foldl f acc).1.failed = acc.1.failed := by
+  induction l generalizing acc with
+  | nil => exact ⟨rfl, rfl⟩
+  | cons a as ih =>
+    simp only [List.foldl_cons]
+    exact ⟨(ih _).1.trans (hf acc a).1, (ih _).2.trans (hf acc a).2⟩
+
+theorem nf_checkSensorsD (C : Cfg) (s : St) (n : Nat) (cd : CommD) (swF : List Bool) :
+    (checkSensorsD C s n cd swF).1.netFailed = s.netFailed ∧ (checkSensorsD C s n cd swF).1.failed = s.failed := by
+  unfold checkSensorsD
+  simp only
+  have h1 := nf_foldl_pair (flagStepD C n cd) (nf_flagStepD C n cd) ((C.nets.getD n default).secs.filter (fun k => gb s.secConn k)) (s, swF)
+  have h2 := nf_foldl_eq (recoStepD C n cd) (nf_recoStepD C n cd) ((C.nets.getD n default).secs.filter (fun k => !gb s.secConn k))
+    (((C.nets.getD n default).secs.filter (fun k => gb s.secConn k)).foldl (flagStepD C n cd) (s, swF)).1
+  exact ⟨h2.1.trans h1.1, h2.2.trans h1.2⟩
+
+theorem nf_distLoopA' (C : Cfg) (s : St) (n : Nat) (dt : ℚ) (chk : St → St)
+    (hchk : ∀ a, (chk a).netFailed = a.netFailed ∧ (chk a).failed = a.failed) :
+    (distLoopA' C s n dt chk).netFailed = s.netFailed ∧ (distLoopA' C s n dt chk).failed = s.failed := by
+  unfold distLoopA'
+  simp only []
+  exact nf_loopCore C n { s with timer := s.timer.set n (tick (gr s.timer n) dt) } chk
+    (fun a => (C.nets.getD n default).children.foldl (fun (s : St) m =>
+        if gb s.cbOpen (C.nets.getD m default).cb then { s with pTimer := s.pTimer.set m (gr s.timer n) } else s) a)
+    hchk (fun a => ⟨childFold_nf C n _ a, (childFold_fields C n _ a).2.1⟩)
+
+theorem nf_mgLoopA' (C : Cfg) (s : St) (n : Nat) (dt : ℚ) (chk : St → St)
+    (hchk : ∀ a, (chk a).netFailed = a.netFailed ∧ (chk a).failed = a.failed) :
+    (mgLoopA' C s n dt chk).netFailed = s.netFailed ∧ (mgLoopA' C s n dt chk).failed = s.failed := by
+  unfold mgLoopA'
+  simp only []
+  exact nf_loopCore C n
+    ({ s with timer := s.timer.set n (if gr s.pTimer n > tick (gr s.timer n) dt then gr s.pTimer n else tick (gr s.timer n) dt),
+              pTimer := s.pTimer.set n (tick (gr s.pTimer n) dt) } : St)
+    chk (fun a => a) hchk (fun _ => ⟨rfl, rfl⟩)
+
+/-- the state the control loops of `stepD` start from: all lines updated, then the networks whose sensors came back are marked -/
+def stepDStart (C : Cfg) (s : St) (dt : ℚ) (cd : CommD) : St :=
+  let s0 := (List.range C.lines.length).foldl (fun s l => lineUpdate C s l dt) s
+  { s0 with check := (List.range C.nets.length).foldl (fun c n => if gb cd.recheck n then c.set n true else c) s0.check }
+
+theorem stepD_eq (C : Cfg) (s : St) (dt : ℚ) (cd : CommD) (swF : List Bool) :
+    stepD C s dt cd swF =
+      (((List.range C.nets.length).filter (fun n => isMg C n)).foldl (fun (acc : St × List Bool) n => mgLoopD C acc.1 n dt cd acc.2)
+        (((List.range C.nets.length).filter (fun n => !isMg C n)).foldl (fun (acc : St × List Bool) n => distLoopD C acc.1 n dt cd acc.2)
+          (stepDStart C s dt cd, swF))).1 := rfl
+
+/-- `NF` (a network is flagged as having a failed line only while one of its lines is failed) survives an increment with devices in trouble -/
+theorem NF.afterStepD {C : Cfg} {s : St} (w : WF C) (w2 : WF2 C) (h : NF C s) (dt : ℚ) (cd : CommD) (swF : List Bool) :
+    NF C (stepD C s dt cd swF) := by
+  have key : ∀ (ls : List Nat) (x : St), (∀ l ∈ ls, l < C.lines.length) → NF C x → NF C (ls.foldl (fun s l => lineUpdate C s l dt) x) := by
+    intro ls
+    induction ls with
+    | nil => intro x _ hx; exact hx
+    | cons a as ih =>
+      intro x hin hx
+      simp only [List.foldl_cons]
+      exact ih _ (fun l hl => hin l (List.mem_cons_of_mem _ hl)) (hx.afterUpdate w w2 a (hin a List.mem_cons_self) dt)
+  have h0 : NF C (stepDStart C s dt cd) :=
+    (key (List.range C.lines.length) s (fun l hl => List.mem_range.mp hl) h).congr rfl rfl
+  have hd : ∀ (acc : St × List Bool) (n : Nat), (distLoopD C acc.1 n dt cd acc.2).1.netFailed = acc.1.netFailed ∧
+      (distLoopD C acc.1 n dt cd acc.2).1.failed = acc.1.failed := by
+    intro acc n
+    rw [distLoopD_fst]
+    exact nf_distLoopA' C acc.1 n dt _ (fun a => nf_checkSensorsD C a n cd acc.2)
+  have hm : ∀ (acc : St × List Bool) (n : Nat), (mgLoopD C acc.1 n dt cd acc.2).1.netFailed = acc.1.netFailed ∧
+      (mgLoopD C acc.1 n dt cd acc.2).1.failed = acc.1.failed := by
+    intro acc n
+    rw [mgLoopD_fst]
+    exact nf_mgLoopA' C acc.1 n dt _ (fun a => nf_checkSensorsD C a n cd acc.2)
+  rw [stepD_eq]
+  have e1 := nf_foldl_pair (fun (acc : St × List Bool) n => distLoopD C acc.1 n dt cd acc.2) hd
+    ((List.range C.nets.length).filter (fun n => !isMg C n)) (stepDStart C s dt cd, swF)
+  have e2 := nf_foldl_pair (fun (acc : St × List Bool) n => mgLoopD C acc.1 n dt cd acc.2) hm
+    ((List.range C.nets.length).filter (fun n => isMg C n))
+    (((List.range C.nets.length).filter (fun n => !isMg C n)).foldl (fun (acc : St × List Bool) n => distLoopD C acc.1 n dt cd acc.2)
+          (stepDStart C s dt cd, swF))
+  exact h0.congr (e2.2.trans e1.2) (e2.1.trans e1.1)
+
 end Relsad.Control
